@@ -241,6 +241,17 @@ class Gen:
             return {"k": "or", "a": empty, "b": test}
         self.op("if")
         other = self.const("double") if r.random() < 0.7 else self.scalar(env, max(depth - 1, 0), "double")
+        if r.random() < 0.25:
+            # First() inside the TEST of the conditional (guarded by and / or), the conditional's value consumed by
+            # an enclosing operator: the result variable must be visible where it is used
+            tcmp = {"k": "cmp", "op": r.choice(["<", ">", ">="]), "a": fst, "b": self.const(r.choice(NUM))}
+            test = r.choice([{"k": "and", "a": nonempty, "b": tcmp}, {"k": "or", "a": empty, "b": tcmp}, tcmp, tcmp])  # (unguarded: the query itself fails on an empty sequence)
+            self.op(test["k"] if test["k"] != "cmp" else "cmp")
+            cond = {"k": "if", "c": test, "a": self.leaf(env, "double"), "b": other}
+            if r.random() < 0.5:
+                self.op("fn")
+                return {"k": "fn", "f": "fabs", "args": [cond]}
+            return {"k": "bin", "op": r.choice(["+", "-", "*"]), "a": cond, "b": self.leaf(env, "double")}
         if r.random() < 0.5:
             return {"k": "if", "c": nonempty, "a": fst, "b": other}
         return {"k": "if", "c": empty, "a": other, "b": fst}
